@@ -154,6 +154,15 @@ def rule_xport(m):
                         if not (lab is not None and lab[0] == 'mcall' and lab[1].endswith('::getEdgeLabel') and lab[2] == ('this',)
                                 and set(lab[3][:2]) == {fi, se}):
                             why = why or 'the inserted label is not getEdgeLabel of the enumerated edge'
+            # every copy that the enumeration yields is transported: the insertions are forced (an unforced insertion
+            # collapses the copies of a pair that was duplicated with force=true in the undirected graph)
+            for n, kind in ins:
+                a = [un(tt.t(x)) for x in n['args']]
+                cd = f.unit.decl(n['callee'])
+                if cd.get('cptypes') and cd['cptypes'][-1] == 'bool':
+                    if not (len(a) == len(cd['cptypes']) and a[-1] == ('bool', True)):
+                        why = why or ('the conversion inserts with force off (`%s`): copies of a pair duplicated with force=true are '
+                                      'collapsed, so the directed graph has fewer edges than the enumeration yielded' % f.expr_text(n['i'])[:50])
             dg = tt.t(ins[0][0]['obj']) if ins else None
             init = _local_init(f, tt, dg) if dg else None
             if why is None and not (init and init[0] == 'ctor' and init[2] and is_size_term(m, f, strip_cast(init[2][0]), tt)):
